@@ -339,9 +339,11 @@ def planted_cases():
                                                                  "reference", "value_origin", "values-new",
                                                                  "values-unconvertible", "values-convertible"]
         for attr in attrs:
-            for how in ("conflict", "near", "src-unset", "dest-unset", "equal"):
+            for how in ("conflict", "near", "src-unset", "dest-unset", "equal", "dest-falsy", "src-falsy"):
                 if attr.startswith("values") and how != "conflict":
                     continue
+                if how.endswith("falsy") and attr != "uncertainty":
+                    continue   # the only attribute with a meaningful falsy value (0)
                 if attr in ("dtype", "unit", "uncertainty") and how == "near":
                     continue
                 d, s = copy.deepcopy(base), copy.deepcopy(base)
@@ -370,9 +372,12 @@ def planted_cases():
                     other = {"uncertainty": 0.75}.get(attr, "Another text")
                     dn[attr] = basev
                     sn[attr] = {"conflict": other, "near": "  some   TEXT " if attr != "unit" else other,
-                                "src-unset": None, "dest-unset": basev, "equal": basev}[how]
+                                "src-unset": None, "dest-unset": basev, "equal": basev,
+                                "dest-falsy": other, "src-falsy": 0}[how]
                     if how == "dest-unset":
                         dn[attr] = None
+                    if how == "dest-falsy":
+                        dn[attr] = 0.0
                 for strict in (True, False):
                     cases.append({"dest": enc(d), "src": enc(s), "strict": strict,
                                   "planted": [attr, how, len(path), k]})
@@ -418,7 +423,8 @@ def random_pair(rng):
                     if q < 0.15:
                         n[a] = None
                     elif q < 0.3:
-                        n[a] = 0.5 if a == "uncertainty" else rng.choice(["Some Text", "some text", "Other", "u"])
+                        n[a] = rng.choice([0.5, 0, 0.0, 2]) if a == "uncertainty" else \
+                            rng.choice(["Some Text", "some text", "Other", "u"])
                 if rng.random() < 0.06:
                     n["dtype"] = rng.choice(["int", "float", "string"])
                     n["values"] = gen._good_value(n["dtype"])
